@@ -1028,6 +1028,9 @@ class CollapseCollector(WrappingCollector):
                     # Tell the child collector to remove the document
                     child.remove(best.pop()[1])
                     add = True
+                    # The removed document was filtered out after all
+                    collapsed_counts[ckey] += 1
+                    self.collapsed_total += 1
 
                 if add:
                     insort(best, (sortkey, global_docnum))
